@@ -52,11 +52,25 @@ impl Operator {
             a: Value,
             b: Value,
             op: &dyn Fn(Value, Value) -> bool,
-        ) -> Option<Value> {
+        ) -> Result<Option<Value>, BadOp> {
+            match (&a, &b) {
+                (Value::Numeric(x, _), Value::Numeric(y, _))
+                    if !x.is_comparable(y) =>
+                {
+                    Err(InvalidCss::Incompat(x.clone(), y.clone()).into())
+                }
+                (Value::Numeric(..), Value::Numeric(..))
+                | (Value::Literal(_), Value::Literal(..)) => {
+                    Ok(Some(Value::from(op(a, b))))
+                }
+                _ => Ok(None),
+            }
+        }
+        fn eq_single(a: Value, b: Value) -> Option<Value> {
             match (&a, &b) {
                 (Value::Numeric(..), Value::Numeric(..))
                 | (Value::Literal(_), Value::Literal(..)) => {
-                    Some(Value::from(op(a, b)))
+                    Some(Value::from(a == b))
                 }
                 _ => None,
             }
@@ -65,12 +79,12 @@ impl Operator {
             Self::And => Some(if a.is_true() { b } else { a }),
             Self::Or => Some(if a.is_true() { a } else { b }),
             Self::Equal => Some(Value::from(a == b)),
-            Self::EqualSingle => cmp(a, b, &|a, b| a == b),
+            Self::EqualSingle => eq_single(a, b),
             Self::NotEqual => Some(Value::from(a != b)),
-            Self::Greater => cmp(a, b, &|a, b| a > b),
-            Self::GreaterE => cmp(a, b, &|a, b| a >= b),
-            Self::Lesser => cmp(a, b, &|a, b| a < b),
-            Self::LesserE => cmp(a, b, &|a, b| a <= b),
+            Self::Greater => cmp(a, b, &|a, b| a > b)?,
+            Self::GreaterE => cmp(a, b, &|a, b| a >= b)?,
+            Self::Lesser => cmp(a, b, &|a, b| a < b)?,
+            Self::LesserE => cmp(a, b, &|a, b| a <= b)?,
             Self::Plus => match (a, b) {
                 (Value::Numeric(a, _), Value::Numeric(b, _)) => {
                     if a.unit == b.unit || b.is_no_unit() {
